@@ -76,6 +76,9 @@ class Interp:
             elif isinstance(e, str) and e.startswith("."):
                 v = self.deref(v)
                 f = e[1:]
+                if v[0] == "sym":
+                    v = ("sym", v[1] + e)          # a field of an opaque value is opaque
+                    continue
                 if v[0] == "enum":
                     idx = int(f) if f.isdigit() else 0
                     if idx >= len(v[2]):
@@ -85,6 +88,10 @@ class Interp:
                     if not f.isdigit() or int(f) >= len(v[1]):
                         raise Unknown("field %s of tuple" % f)
                     v = v[1][int(f)]
+                elif v[0] == "closure":
+                    if not f.isdigit() or int(f) >= len(v[2]):
+                        raise Unknown("capture %s of closure" % f)
+                    v = v[2][int(f)]
                 elif v[0] == "struct":
                     if f not in v[1]:
                         raise Unknown("field %s of struct" % f)
@@ -210,6 +217,8 @@ class Interp:
                 if r.get("fields") and not (r.get("variant") or "")[:1].isupper():
                     return ("struct", dict(zip(r["fields"], ops)))
                 return ("enum", r.get("variant"), ops)
+            if r.get("what") == "closure":
+                return ("closure", r.get("def"), ops)          # captured values are fields .0 .. .n of the environment
             raise Unknown("aggregate %s" % r.get("what"))
         if k == "discr":
             v = self.deref(self.read(env, r["p"]))
@@ -338,6 +347,23 @@ def call_workspace(fa, interp, env, t, hook=None, depth=0):
     cenv = {}
     for k, a in enumerate(t["a"]):
         cenv[k + 1] = interp.operand(env, a)
+    sub = Interp(cb, interp.orders, (lambda i_, e_, t_: hook(i_, e_, t_, depth + 1)) if hook else None, interp.max_steps,
+                 interp.fa or fa)
+    return sub.run(cenv)
+
+
+def call_closure(fa, interp, clo, args, hook=None, depth=0):
+    """Interpret a closure value `clo` (("closure", def, captures)) applied to `args` (abstract values)."""
+    clo = interp.deref(clo)
+    if clo[0] != "closure" or depth > 6:
+        raise Unknown("call of %s" % (clo,))
+    cb = fa.body(clo[1])
+    if cb is None:
+        raise Unknown("closure body %s not in the facts" % clo[1])
+    cenv = {1: ("ref", clo)}
+    # closure bodies take their arguments either spread (`_2, _3`) or as one tuple, depending on the ABI in MIR: spread here
+    for k, a in enumerate(args):
+        cenv[k + 2] = a
     sub = Interp(cb, interp.orders, (lambda i_, e_, t_: hook(i_, e_, t_, depth + 1)) if hook else None, interp.max_steps,
                  interp.fa or fa)
     return sub.run(cenv)
